@@ -298,6 +298,7 @@ class Codec:
         put_uvarint(out, len(b))
         out += b
         self.marks = [len(out)]   # byte offsets of value boundaries (for cut-position classes)
+        self.block_ends = []      # (byte offset where a block of a stream ends and another block follows, step index, items of the step so far)
         for i, (name, t, stream) in enumerate(proto.steps):
             qt = M.qualify(t, ns)
             if not stream:
@@ -310,12 +311,14 @@ class Codec:
                 part = [len(items)] if items else []
             assert sum(part) == len(items) and all(p > 0 for p in part)
             k = 0
-            for p in part:
+            for bi, p in enumerate(part):
                 put_uvarint(out, p)
                 for _ in range(p):
                     self.enc(qt, items[k], out)
                     k += 1
                     self.marks.append(len(out))
+                if bi + 1 < len(part):
+                    self.block_ends.append((len(out), i, k))
             put_uvarint(out, 0)       # "The last block will have length 0"
             self.marks.append(len(out))
         return bytes(out)
